@@ -165,6 +165,17 @@ def sites():
             else:
                 argv += toks
         res['%s/%s#%d/%s' % (bname, g, ti, label)] = dict(base=bname, group=g, argv=argv)
+    # two replaced tokens (scenarios the thorough tier found by simulation, pinned for the quick tier)
+    multi = [('curves', [('arc', 1, '5,4,1.5,0,1e-29,0.001'), ('geo_scale', 1, '--geo-scale=0.9')], 'degenerate_arc_scaled_and_moved')]
+    for bname, repl, label in multi:
+        argv = []
+        for g2, toks in BASES[bname]:
+            t2 = list(toks)
+            for g, ti, newtok in repl:
+                if g == g2:
+                    t2[ti] = newtok
+            argv += t2
+        res['%s/x/%s' % (bname, label)] = dict(base=bname, group='x', argv=argv)
     # contradictory / dependent options
     extra = {
         'free/x/nf_option_without_grid': ('free', ['--option=near-field']),
@@ -215,6 +226,9 @@ def sites():
                                                          '--excitation-voltage=1', '--excitation-voltage=0']),
         'free/x/live_source_on_dead_wire': ('free', ['-w', '4,0,0,50,0,0,1e29,0.001', '--excitation-pulse=11',
                                                      '--excitation-voltage=1', '--excitation-voltage=1']),
+        # an arc whose angular extent is below the resolution of its coordinates once it is moved away from the origin
+        'free/x/degenerate_arc_moved': ('free', ['-a', '4,1.5,0,1e-29,0.001', '--geo-translate=1,3,7,20']),
+        'free/x/degenerate_helix_moved': ('free', ['--helix', '4,1e-29,1e-31,0.001,0.3', '--geo-translate=1,3,7,20']),
         'free/x/closed_arc_on_wire_end': ('free', ['-w', '9,5,2,0,20,1,0,20,0.001', '-a', '10,8,1,0,360,0.001',
                                                    '--geo-translate=0,0,0,20,10']),
         'curves/x/equal_keys_same_kind': ('curves', ['--geo-translate=7,0,0,1', '--geo-translate=7,0,0,1']),
